@@ -246,7 +246,9 @@ func (s *fakeStream) Recv() ([]byte, error) {
 			return nil, m.err
 		}
 		s.unread--
-		e.emitLocked(map[string]any{"ev": "read", "s": s.t.srv.idx, "k": s.epoch, "id": m.id})
+		if !e.closing {
+			e.emitLocked(map[string]any{"ev": "read", "s": s.t.srv.idx, "k": s.epoch, "id": m.id})
+		}
 		return m.data, nil
 	case <-s.ctx.Done():
 		e.mu.Lock()
@@ -290,6 +292,11 @@ func errKind(err error) (string, string) {
 
 func (w *watcher) record(kind, et, v string, done func()) {
 	w.e.mu.Lock()
+	if w.e.closing { // teardown of the behaviour: not part of the trace
+		w.e.mu.Unlock()
+		done()
+		return
+	}
 	w.e.emitLocked(map[string]any{"ev": "cb", "w": w.id, "k": kind, "et": et, "v": v})
 	if w.hold {
 		w.dones = append(w.dones, done)
@@ -730,7 +737,7 @@ func TestVerifXdscRandom(t *testing.T) {
 					e.apply(step{A: "up", S: s, Fail: rng.Intn(8) == 0})
 				case x < 52 && len(live) > 0:
 					e.apply(step{A: "break", S: live[rng.Intn(len(live))]})
-				case x < 55:
+				case x < 55 && mode != "fb":
 					e.apply(step{A: "expire"})
 				case len(live) > 0:
 					s := live[rng.Intn(len(live))]
